@@ -161,7 +161,7 @@ def _returned_params(g):
       name, env = r.ast.value.id, pf.env
       for _ in range(6):
         last = env.get(name)
-        if last is None:
+        if last is None or last[0].how == 'param':
           if name in g.params:
             out.setdefault(name, pf.text()[:120] or 'always')
           break
@@ -242,6 +242,40 @@ def r1_parameters(repo, rep):
         writers.setdefault(m.name, norm(e.stmt)[:60])
       if e.kind == 'mutator-call' and e.attr in ('setattr', 'delattr', '__setattr__', 'object.__setattr__') and norm(e.target) == sn:
         writers.setdefault(m.name, norm(e.stmt)[:60])
+  # ... or through a local that is the object itself on some path: resolved = self; if c: resolved = copy.copy(self); resolved.x = v
+  from mmsa.types import FuncCtx as _FC
+  for m in pcls.all_functions():
+    if m.name in writers or m.name in ('__init__', '__post_init__') or not m.params:
+      continue
+    sn = m.params[0]
+    mctx = _FC.of(m)
+    for e in effects.effects_of(m.node, mctx.g, mctx.rd):
+      if e.kind not in ('attr-store', 'delete') or not isinstance(e.target, ast.Attribute) or not isinstance(e.target.value, ast.Name) or e.target.value.id == sn:
+        continue
+      name = e.target.value.id
+      try:
+        for path in mctx.g.enumerate_paths(mctx.g.entry, lambda x: x is e.node, cfgmod.no_exc, max_paths=2000, back_limit=0):
+          pf = pathcond.PathFacts(path, mctx.rd)
+          if not pf.feasible:
+            continue
+          nm, env = name, pf.env
+          for _ in range(6):
+            last = env.get(nm)
+            if last is None:
+              break
+            d_, env = last
+            if d_.how == 'param':
+              break
+            if d_.how == 'assign' and isinstance(d_.value, ast.Name):
+              nm = d_.value.id
+              continue
+            nm = None
+            break
+          if nm == sn:
+            writers.setdefault(m.name, '%s with %s being the object itself when %s' % (norm(e.stmt)[:50], name, pf.text()[:80] or 'always'))
+            break
+      except Undecided:
+        pass
   changed = True
   while changed:
     changed = False
